@@ -13,20 +13,20 @@ claim("C02",
       COMMON_NOTE + "Assumes the ghost-series contract of storage.MemoizedSeriesIterator (specs/10_iterators.spec).",
       "DESIGN.md 4 C02")
 claim("C06",
-      "Proof of the listed obligations (partial): functionOperator.Next applies the function to every sample with the step's time and the scalar arguments of that very step (NaN where a scalar argument has no sample), drops exactly the samples for which the function has no value, and scalar(v) delivers one sample per step, NaN unless v has exactly one element; number literals deliver the literal at every step of any window; step-invariant children are planned on the single-step grid; scalar streams keep the points of all batches in Exec.",
-      COMMON_NOTE + "Value rules of the individual instant functions (the Funcs table), unary minus and histogram_quantile are not yet under contract; sibling lock-step (equal batch lengths of the arguments) is assumed from C18.",
+      "Proof of the listed obligations (partial): functionOperator.Next applies the function to every sample with the step's time and the scalar arguments of that very step (NaN where absent), drops exactly the samples without a function value, scalar(v) delivers one sample per step (NaN unless exactly one element); time()/pi() deliver one sample (id 0) computed from the step time at every step of the grid; an @-pinned child is evaluated once and every step of the outer grid gets a copy of that same vector in buffers of its own; unary minus negates every vector of its child's batch and serves batches without a prior Series() call; number literals deliver the literal at every step; histogram_quantile emits one vector per step with the quantile of that step and empties its buckets between steps.",
+      COMMON_NOTE + "Value rules of the individual instant functions (the Funcs table), bucketQuantile (trusted) are not under contract; timestamp() of a bare selector returns 0 (known, unfixed, no obligation covers it); sibling lock-step (equal batch lengths of the arguments) is assumed from C18.",
       "DESIGN.md 4 C06")
 claim("C07",
-      "Proof of the listed obligations: NumSteps, the step grid of leaf operators (first step = cursor, one vector per step, none beyond the window end, maximal batches, cursor advance), windows passed unchanged through plan construction, Exec keeps every batch.",
-      COMMON_NOTE + "The law itself is a corollary argued in DESIGN.md from these obligations; stateful operators not yet under contract are not covered.",
+      "Proof of the listed obligations: NumSteps; the step grid of every leaf operator (number literal, vector selector, matrix selector, time()/pi(), step-invariant: first step = cursor, one vector per step, none beyond the window end, maximal batches, cursor advance); per-step purity of the stateful operators under contract (selectPoints' window is exactly the fresh window whatever was carried over; binary duplicate tags never match across steps; topk heaps and histogram buckets empty between steps; every accumulator forgets on Reset; pinned vector cached once); one output vector per input vector for function, unary, scalar-binary, aggregation and histogram operators; windows passed unchanged through plan construction; Exec keeps every batch.",
+      COMMON_NOTE + "The law itself is a corollary argued in DESIGN.md from these obligations; the grouped scalar table's loops and the join index are not covered.",
       "DESIGN.md 4 C07")
 claim("C08",
       "Proof: every error of plan construction is classified unsupported/not-implemented (or remote), for every node kind and function name symbolically; triggerFallback is exactly that classification; NewInstantQuery/NewRangeQuery pass the very same arguments to the Prometheus engine, bump the counter once with the path taken, and reject at creation when fallback is disabled.",
       COMMON_NOTE + "That natively supported constructs are evaluated exactly is C01-C07, not decided here.",
       "DESIGN.md 4 C08")
 claim("C10",
-      "Proof of the listed obligations (partial): remote results are re-read as the identity (lookback 0, offset 0, one shard, same grid), remote queries are issued on the query's window and step.",
-      COMMON_NOTE + "Commutation of the distributed rewrite with union over partitions is not decided.",
+      "Proof of the listed obligations (partial): only sum, min, max, group, count, topk, bottomk are pushed down and never a binary expression; every distributive aggregation is distributed where it stands (local re-aggregation: count becomes sum, otherwise the same operator, same parameter/grouping/by-without) and the traversal stops there; one sub-query per engine whose text is the replaced sub-tree; remote results are re-read as the identity (lookback 0, offset 0, one shard, same grid) without writing the shared query options; remote queries are issued on the query's window and step; rewrites land in the plan.",
+      COMMON_NOTE + "That those seven aggregations distribute over a disjoint union is the classical algebraic fact, not machine-checked; commutation of the whole rewrite with union for every tree shape is not decided; storageAdapter is not under contract.",
       "DESIGN.md 4 C10")
 claim("C11",
       "Proof of the listed obligations (partial): the shard count is at least one, shards partition the series list for every count and index, every shard gets the same selector/options/offset.",
@@ -49,16 +49,16 @@ claim("C16",
       COMMON_NOTE + "The reference rules are a transcription of promql/engine.go (trusted).",
       "DESIGN.md 4 C16")
 claim("C17",
-      "Proof of the listed obligations (partial): the one function that opens a storage querier closes it exactly once on every way out - normal return, storage error and a panic raised by a storage callback; constructors do not touch the storage; shards are fresh copies (the shared series list is not written).",
-      COMMON_NOTE + "Label ownership (no in-place edit of storage-owned label sets) is not yet under contract; that loadSeries runs no later than Exec is not decided.",
+      "Proof of the listed obligations (partial): the one function that opens a storage querier closes it exactly once on every way out (normal return, storage error, panic of a storage callback); constructors do not touch the storage; shards are fresh copies; every in-place label edit (DropMetricName/dropLabel) is applied to a private copy only - at the call sites in the scalar operator, the function operator, the matrix selector's loader and histogram_quantile.",
+      COMMON_NOTE + "sort.Sort on the un-copied labels of last_over_time and the unary operator's builder are not checked for writes; that loadSeries runs no later than Exec is not decided.",
       "DESIGN.md 4 C17")
 claim("C18",
-      "Proof of the listed obligations (partial): the stream contract for the leaf operators under contract (batch size, one vector per step in increasing order, ids/values of equal length, end of stream), never a stale value out of selectPoint.",
-      COMMON_NOTE + "Operators not yet under contract are not covered; concurrent Next calls are a scheduling question.",
+      "Proof of the listed obligations (partial): every operator under contract (number literal, vector selector, matrix selector, time()/pi(), function, unary, scalar-binary, step-invariant) refines the ghost-free clauses of the stream contract - error means no batch, batch freshly allocated, ids and values pair up in buffers owned by the batch, no two step vectors share a buffer, strictly increasing steps - plus batch size/grid for the leaves, one vector per step for topk/bottomk, aggregations and histogram_quantile, ids within the series list for function and histogram operators, workers started before use.",
+      COMMON_NOTE + "vectorOperator (join), aggregate's tables, coalesce/concurrent (channels) are not covered; sample ids unique within a step is not proved; concurrent Next calls are a scheduling question.",
       "DESIGN.md 4 C18")
 claim("C19",
-      "Proof: Exec returns a sorted matrix without empty series for range queries, the expression's type for instant queries with every sample stamped with the evaluation time; selectPoint never yields a staleness marker.",
-      COMMON_NOTE + "Pairwise-distinct label sets and sortedness of each operator's label sets are not decided.",
+      "Proof: Exec returns a sorted matrix without empty series for range queries, the expression's type for instant queries with every sample stamped with the evaluation time; selectPoint and selectPoints never yield a staleness marker; selectors emit steps on the grid and never beyond the window end; histogram output series are keyed by the label set they report (no two output series with the same labels from that grouping); aggregations with without() drop the metric name.",
+      COMMON_NOTE + "Pairwise-distinct label sets after a name drop in general (abs({__name__=~\"a|b\"}) returns duplicates where the reference errors) and sortedness of each operator's label sets are not decided.",
       "DESIGN.md 4 C19")
 claim("C20",
       "Proof: the returned points live in memory allocated by Exec; the functions under contract write no engine-level or package-level state (frame conditions); selector pool and vector pools are created per query.",
@@ -66,16 +66,16 @@ claim("C20",
       "DESIGN.md 4 C20")
 
 claim("C03",
-      "Proof of the listed obligations (partial): selectPoints hands a range function only non-stale samples inside the window and surfaces iterator failures; the matrix selector is built from the node's range, offset and options; extrapolatedRate (rate/increase/delta) computes the reference engine's formula operation by operation, for every window of at least two samples; range hints and windows equal the reference arithmetic.",
-      COMMON_NOTE + "Completeness of the window (no in-window sample is lost when points are carried over from the previous step) and the values of the other range functions are not yet under contract. Float arithmetic is uninterpreted: equality of values means same operations on the same operands in the same order.",
+      "Proof of the listed obligations: selectPoints returns exactly the non-stale samples of the series inside [mint, maxt], in order (soundness plus completeness stated as gap conditions over a ghost index map), for every carried-over window; matrixSelector.Next evaluates every series at every step of the grid on the window [t-offset-range, t-offset], hands the function exactly those points with the step time, range and offset, and discharges selectPoints' buffer-coverage precondition for every relation of range and step (first step: full range; later steps: buffer delta = min(range, step)); extrapolatedRate (rate/increase/delta) computes the reference formula operation by operation; range hints and windows equal the reference arithmetic.",
+      COMMON_NOTE + "Assumes the ghost-series contract of storage.BufferedSeriesIterator (specs/10_iterators.spec) and that range functions stamp their result with the step time; matrixSelector.loadSeries is trusted (only its label ownership is verified); the values of the other range functions are not yet under contract. Float arithmetic is uninterpreted: equality of values means same operations on the same operands in the same order.",
       "DESIGN.md 4 C03")
 claim("C04",
-      "Proof of the listed obligations (partial): aggregate.Next and kAggregate.Next deliver one output vector per input vector and pair the parameter of each step with that step (the parameter operator is pulled once per input batch; NaN when absent); topk/bottomk: k below one selects nothing, a k outside int64 is the reference's error, every step appends exactly one vector and leaves the heaps empty; the vectorized (ungrouped) table is stamped and valued per step.",
-      COMMON_NOTE + "Group formation (label hashing), the grouped scalar table, accumulator values (sum/avg/stddev/quantile) and which k elements topk keeps are not yet under contract; the worker hand-off is assumed.",
+      "Proof of the listed obligations (partial): aggregate.Next and kAggregate.Next deliver one output vector per input vector and pair the parameter of each step with that step; topk/bottomk: k below one selects nothing, a k outside int64 is the reference's error, every step appends exactly one vector and leaves the heaps empty; every accumulator of the grouped table (9 operators x AddFunc/ValueFunc/HasValue/Reset) follows the reset/add/has-value protocol and sum/count/max/min/avg/group fold the samples as the reference does (NaN rule of max/min included); output labels: without(...) deletes the grouping labels and the metric name, by(...) keeps only the grouping labels; the ungrouped vectorized table is stamped and valued per step.",
+      COMMON_NOTE + "Group formation (label hashing into tables), scalarTable's own loops, stddev/stdvar/quantile values and which k elements topk keeps are not yet under contract; initializeTables/init are trusted; the worker hand-off and the labels.Builder algebra are assumed.",
       "DESIGN.md 4 C04")
 claim("C05",
-      "Proof of the listed obligations (partial): table.execBinaryOperation evaluates one step - an output reached twice from the one side in the same step is an error whether or not the pair survives the comparison filter, never for the many side; a right sample pairs only with a left sample of the same step; the operation receives (left, right); bool yields 1/0 and a filtered comparison keeps the operation's value; output ids index the output series; operands are planned in order with the node's matching.",
-      COMMON_NOTE + "The join index (which series match), result label sets and the scalar forms are not yet under contract.",
+      "Proof of the listed obligations (partial): table.execBinaryOperation evaluates one step (duplicates on the one side are an error whether or not the pair survives the filter, never for the many side; right samples pair only with left samples of the same step; operation gets (left, right); bool yields 1/0; filtered comparisons keep the operation's value; ids index the output series); scalarOperator.Next pairs every sample with the scalar of its own step (NaN when absent) in query operand order, bool yields 1/0, otherwise only kept samples, one output vector per input vector; scalarOperator.loadSeries drops the metric name exactly for arithmetic or bool operators and only on a private copy; operands are planned in order with the node's matching.",
+      COMMON_NOTE + "The join index (which series match), result label sets of vector-vector operators (group_left labels are known to be appended unsorted) are not yet under contract.",
       "DESIGN.md 4 C05")
 claim("C09",
       "Proof of the listed obligations (partial): merge-selects - a selector is only replaced by a recorded broader selector whose matchers are all matchers of the selector (compared by name, type and value, repeated label names included), every matcher of the selector is applied by the replacement or kept as a filter, and nothing else is applied; the in-engine filter passes a series iff every filter matcher holds with an absent label read as the empty string, keeps the select's order and signs the kept series densely; matcher propagation is applied only to arithmetic one-to-one operators matching on all labels, keeps every own matcher of each operand and adds only non-name matchers of the other operand; traversal hands the optimizers pointers into the plan (replacements are not lost); the selector cache key covers matchers, window and hints.",
